@@ -832,6 +832,9 @@ def stream_exhaustive(R):
     """every one-operator expression over every pair of leaves, every way of defining it, every basic view"""
     rng = R.subrng('exh')
     cases = []
+    fl_all = []
+    ncases = 0
+    sample_case = None
     shapes = R.pick([(3,), (2, 3)], [(3,), (2, 3), (3, 1, 2)])
     for shape in shapes:
         for coords in (None, 1):
@@ -840,6 +843,9 @@ def stream_exhaustive(R):
             ids = W.order()
             leaves_ = [('cid', n) for n in ids] + [('const', Fraction(2)), ('const', Fraction(0)), ('const', Fraction(-1, 2))]
             views = all_views(shape, rich=not R.quick())
+            if len(views) > 160:      # 3-d shapes: a fixed, evenly spread subset of the ~1500 basic views
+                step = len(views) // 160 + 1
+                views = views[:1] + views[1::step]
             trees = []
             for op in OPS:
                 for l in leaves_:
@@ -853,30 +859,42 @@ def stream_exhaustive(R):
                 for how in (0, 1, 2, 3):
                     if how == 3 and k % 4:
                         continue
-                    vs = views if (k + how) % R.pick(6, 2) == 0 else [views[(k * 7 + how) % len(views)], None]
+                    vs = views if (k + how) % R.pick(6, 3) == 0 else [views[(k * 7 + how) % len(views)], None]
                     ops = [['add', how, t]] + [['query', len(ids), view_key(v)] for v in vs]
                     cases.append({'spec': spec, 'ops': ops})
+            # evaluate block by block (bounds the memory held by the recorded results)
+            for i in range(0, len(cases), 500):
+                fl_all.extend(evaluate(R, cases[i:i + 500], 'exhaustive'))
+            ncases += len(cases)
+            if cases:
+                sample_case = cases[len(cases) // 3]
+            cases = []
     # constant expressions (parsed text only) with every view
     for shape in shapes:
         spec = make_spec(rng, shape, None, nstored=1)
         nbase = len(shape) + 1
         for t in [('const', Fraction(7, 2)), ('bin', '+', ('const', Fraction(1)), ('const', Fraction(1, 2)))]:
             cases.append({'spec': spec, 'ops': [['add', 1, t]] + [['query', nbase, view_key(v)] for v in all_views(shape, rich=False)]})
-    fl = []
-    for i in range(0, len(cases), 1500):
-        fl += evaluate(R, cases[i:i + 1500], 'exhaustive')
-    report(R, fl)
-    R.sample({'stream': 'exhaustive', 'case': jsonable_case(cases[len(cases) // 3])})
-    R.stream('exhaustive', cases=len(cases), exhaustive=True,
+    fl_all.extend(evaluate(R, cases, 'exhaustive'))
+    ncases += len(cases)
+    report(R, fl_all)
+    if sample_case is not None:
+        R.sample({'stream': 'exhaustive', 'case': jsonable_case(sample_case)})
+    R.stream('exhaustive', cases=ncases, exhaustive=True,
              bound='shapes %r x coordinates {none, affine}; every expression "leaf op leaf" over stored (plain and broadcast) / pixel / world '
                    'attributes and 3 constants%s, defined by operators, parsed text, user function (plain / ravelled); all basic views (ints, 6-8 slice forms, '
                    'shorter tuples) for a rotating subset, two views for the rest' % (shapes, ' (one third of them per shape in the quick tier)' if R.quick() else ''))
 
 
 def stream_random(R):
-    n = R.pick(900, 10000)
+    n = R.pick(900, 8000)
     cases, done = [], []
+    fl = []
+    first_case = None
     for i in range(n):
+        if len(cases) >= 500:
+            fl += evaluate(R, cases, 'random', done=done)
+            cases, done = [], []
         rng = R.subrng('rand', i)
         nd = rng.choice([1, 2, 2, 3])
         shape = tuple(rng.choice([1, 2, 3]) for _ in range(nd))
@@ -922,11 +940,11 @@ def stream_random(R):
                     do(['query', tgt, view_key(rng.choice(views))])
         cases.append({'spec': spec, 'ops': ops})
         done.append((W, rn.res))
-    fl = []
-    for i in range(0, len(cases), 1000):
-        fl += evaluate(R, cases[i:i + 1000], 'random', done=done[i:i + 1000])
+        if first_case is None:
+            first_case = cases[0]
+    fl += evaluate(R, cases, 'random', done=done)
     report(R, fl)
-    R.sample({'stream': 'random', 'case': jsonable_case(cases[0])})
+    R.sample({'stream': 'random', 'case': jsonable_case(first_case)})
     R.stream('random', cases=n, exhaustive=False,
              bound='seeded histories of 3..9 add / remove / update_id steps with 1..3 reads each; trees of depth <= 5; shapes of 1..3 axes with lengths 1..3')
 
